@@ -40,7 +40,7 @@ func newWorker(id int, pc *ProgramCtx, cfg *Config) (*Worker, error) {
 	w.stats.knownHits = map[string]int64{}
 	w.stats.reached = map[string]int64{}
 	w.stats.msgs = map[string]int64{}
-	ip := &Interp{P: pc, budget: 1 << 40}
+	ip := &Interp{P: pc, budget: 1 << 40, stack: make([]value, 1<<20)}
 	w.ip = ip
 	ex := &Explorer{w: w, concrete: true}
 	ex.reset(workItem{})
